@@ -80,6 +80,12 @@ func collect(f func(fn gofs.WalkDirFunc) error) ([]walked, error) {
 		if !ok {
 			return fmt.Errorf("%s: no stat", p)
 		}
+		// asking an entry twice must give the same answer (layers on top of a walk do ask again)
+		if fi2, err := e.Info(); err != nil {
+			return fmt.Errorf("%s: second Info(): %w", p, err)
+		} else if st2, ok := fi2.Sys().(*types.Stat); !ok || statDiff(st2, st) != "" {
+			return fmt.Errorf("%s: second Info() of the same entry differs from the first: %s", p, statDiff(st2, st))
+		}
 		out = append(out, walked{p, st})
 		return nil
 	})
